@@ -10,6 +10,7 @@ import ThruVerif.Driver.AuthCmd
 import ThruVerif.Driver.UrlCmd
 import ThruVerif.Driver.HubCmd
 import ThruVerif.Driver.ServerCmd
+import ThruVerif.Driver.RouteCmd
 import ThruVerif.Model.Budget
 /-!
 `tvdriver`: one case per input line, one result per output line. The same lines are given to the Go
@@ -50,6 +51,7 @@ def handle (line : String) : String :=
   | "url" :: ws => handleUrl ws
   | "hub" :: ws => handleHub ws
   | "store" :: ws => handleStore ws
+  | "route" :: ws => handleRoute ws
   | "srv" :: ws => handleSrv ws
   | "bucket" :: ws => handleBucket ws
   | "connlim" :: ws => handleConnLim ws
